@@ -67,6 +67,10 @@ func runC07(res *lib.Result, tier string, seed int64, args []string) error {
 		}
 		for _, o := range occs {
 			if o.kind == "D" && reads[occLoc(o)] == 0 && o.name != "_" && o.dk == "L" && !libraryAlias(effInit[occLoc(o)]) && effInit[occLoc(o)] != "func" {
+				// a to-be-closed variable is used by leaving its block (documented exemption: VarInfo.IsClose)
+				if l := lines[o.sl-1]; o.sc+len(o.name) <= len(l) && strings.HasPrefix(l[o.sc+len(o.name):], " <close>") {
+					continue
+				}
 				want["t4@"+occLoc(o)] = true
 			}
 		}
